@@ -390,6 +390,9 @@ void tune(dsched::Params& p, Chooser&) { p.max_steps = 300000; }
 }  // namespace
 
 int main(int argc, char** argv) {
+  // Epoch::low_water_mark() consults the thread-id allocator (a function-local static) while no accessor exists. The
+  // engine does not model the happens-before edge of a static's initialisation guard: construct it before any case.
+  (void)babylon::ThreadId::end<babylon::Epoch>();
   vf::Target t;
   t.name = "c10_gc";
   t.property_id = "C10";
